@@ -260,6 +260,7 @@ type printer struct {
 	vars     map[string]int
 	usedReal bool
 	ufuns    map[string]int
+	cname    map[*Cond]string // int-mode composite conditions already emitted as named definitions
 }
 
 func (p *printer) uterm(t string) {
